@@ -174,7 +174,7 @@ package set
 //@   loop 1: invariant forall x string :: visited[x] ==> (exists i int :: 0 <= i && i < len(list) && string(list[i]) == x)
 //@   loop 1: invariant listDistinct(list)
 //@   loop 2: modifies elems(list)
-//@   loop 2: invariant s == old(s) && key1 == old(key1) && key2 == old(key2) && has(s.M, key1) && has(s.M, key2) && err == nil
+//@   loop 2: invariant s == old(s) && key1 == old(key1) && key2 == old(key2) && has(s.M, key1) && has(s.M, key2) && err == nil && (arr(list) == arr(pre(list)) || sinceLoop(list))
 //@   loop 2: invariant forall i int :: 0 <= i && i < len(list) ==> allocated(list[i]) && (has(s.M[key1], string(list[i])) || (has(s.M[key2], string(list[i])) && visited@2[string(list[i])]))
 //@   loop 2: invariant forall x string :: has(s.M[key1], x) || (visited@2[x] && has(s.M[key2], x)) ==> (exists i int :: 0 <= i && i < len(list) && string(list[i]) == x)
 //@   loop 2: invariant listDistinct(list)
